@@ -294,6 +294,8 @@ class SimRuntime:
         self.channels.setdefault(key, deque()).append((blob, sender_addr, self.clock.now, type(msg).__name__))
         self.stats["messages"] += 1
         self.send_log.append((self.clock.now, sender_key, str(target_addr), type(msg).__name__))
+        if self.on_send is not None:
+            self.on_send(type(msg).__name__)
         self.loop.call_at(at, ActorEvent(self._pump, key))
 
     def _pump(self, key):
@@ -317,6 +319,7 @@ class SimRuntime:
         self._deliver(rec, msg, sender_addr)
 
     on_external = None
+    on_send = None
 
     # ------------------------------------------------------------------ delivery (actorManager._handleOneMessage)
     def _deliver(self, rec, msg, sender_addr):
